@@ -239,6 +239,7 @@ func (r *Runner) quietPhase() {
 	w := r.W
 	w.Mu.Lock()
 	r.quiet = true
+	r.quietFlag.Store(true)
 	r.cut = map[[2]string]bool{}
 	w.Net.ReleaseHeld()
 	for _, rec := range r.notif {
